@@ -260,5 +260,6 @@ extern "C" void harness_parse_top() {
   // the start symbol consumed [0, end) of the expanded sequence (first log entry); anything left before T_EOF must have been reported
   if (n_log >= 1 && LOG_NT[0] == NT_S && upstream == 0 && stub_errors == 0 && LOG_END[0] < g_n - 1) ASSERT(!r.a.parsed_correctly, "C04: input that remains after the program is reported as an error");
   if (n_log == 1 && upstream == 0 && stub_errors == 0 && LOG_END[0] == g_n - 1) ASSERT(r.a.parsed_correctly, "C04: a program that ends at the end-of-file token is accepted");
+  r.a.clear();   // the caller's duty (Theo::compile does it, see glue obligations); with --memory-leak-check any node outside the registry shows up
   ASSERT(0, "WITNESS: end of harness_parse_top reachable");
 }
